@@ -97,6 +97,34 @@ func genValue(fv reflect.Value, e fit.VerifField, vi int, salt int) bool {
 			return false
 		}
 		cands := []string{"a", "héllo wörld", "", "日本"}
+		if vi >= 10 {
+			// 10..: strings that are not valid UTF-8 (outside C06's domain; C05 only asks that Encode either refuses
+			// them or still writes a well-formed stream); 20..: valid strings that end in / consist of U+FFFD
+			var v string
+			switch vi {
+			case 10:
+				v = "a\xff"
+			case 11:
+				v = "Caf\xe9\xe8"
+			case 12:
+				v = "\xe2\x82"
+			case 13:
+				v = "\xff\xfe\xfd"
+			case 20:
+				v = "Caf\uFFFD"
+			case 21:
+				v = "\uFFFD"
+			case 22:
+				v = "\uFFFDx"
+			default:
+				return false
+			}
+			if len(v) > max {
+				return false
+			}
+			fv.SetString(v)
+			return true
+		}
 		switch vi {
 		case 0:
 			fv.SetString("a")
